@@ -62,6 +62,7 @@ class Contract:
                  decreases=None, pre_hints=None, post_hints=None, entry=False, setup=None, ghost=None,
                  exc_hints=None, pure=False, havoc_self=False, cutpoints=None, assume_ensures_only=False, label=None):
         self.label = label
+        self.model = None
         self.target = target
         self.params = params or {}            # name -> type string (overrides annotations)
         self.self_type = self_type            # class spec name for `self`
@@ -388,7 +389,7 @@ def eval_clause(eng, st: State, node, extra=None):
                 st.fact(c)          # always-true facts discovered while evaluating are kept
         if isinstance(v, Raised):
             continue
-        disj.append(z3.And(*([c for c in new if c.get_id() not in s2.facts] + [truth(v)])))
+        disj.append(z3.And(*([c for c in new if c.get_id() not in s2.facts] + [truth(v, s2)])))
     return simp(z3.Or(*disj)) if disj else z3.BoolVal(False)
 
 
@@ -592,7 +593,7 @@ def exec_loop_unrolled(eng, n, st: State):
                 if isinstance(c, Raised):
                     out.append((s1, c))
                     continue
-                for s2, tv in eng.fork_bool(truth(c), s1, "while"):
+                for s2, tv in eng.fork_bool(truth(c, s1), s1, "while"):
                     if not tv:
                         out.append((s2, None))
                         continue
@@ -675,7 +676,7 @@ def exec_loop_invariant(eng, n, st: State, key, spec):
                     if isinstance(cv, Raised):
                         out.append((s1, cv))
                         continue
-                    guard_paths.extend(eng.fork_bool(truth(cv), s1, key))
+                    guard_paths.extend(eng.fork_bool(truth(cv, s1), s1, key))
             for s2, tv in guard_paths:
                 if not tv:
                     for s3 in run_hints(eng, s2, _parse_stmts(spec.get("exit_hints"))):
